@@ -13,3 +13,7 @@ extern void vs_set_group(int g);
 extern int vs_group(void);
 extern void vs_set_skew(unsigned point, unsigned len);
 extern void vs_park(int logical, unsigned point, unsigned len);
+extern void vs_load_guide(const char *path, const unsigned *shared, unsigned n);
+extern void vs_guide_tag(int tag);
+extern int vs_guide_status(unsigned long *pos, unsigned long *len, const char **why);
+extern int vs_guide_expect(void);
